@@ -34,12 +34,14 @@ class Stop(Exception):
     """Nothing more to explore in this run (e.g. a case the rule text leaves open)."""
 
 
-def do(c, op):
+def do(c, op, opts=()):
     k = op[0]
     if k == 'add':
         c.add_jumper(bib=op[1])
     elif k == 'bar':
-        c.set_bar_height(Decimal(op[1]))
+        # ('opt', 'float-heights') earlier in the trace: the officials of this meeting give heights as floats
+        # (the library's own from_actions test does) - 2.01 is still higher than 2.00
+        c.set_bar_height(float(op[1]) if 'float-heights' in opts else Decimal(op[1]))
     else:
         getattr(c, METHOD[k])(op[1])
 
@@ -64,6 +66,8 @@ def logged_once(before, after, op):
         return False
     if op[0] == 'add':
         return isinstance(got[1], tuple) and ('bib', op[1]) in got[1]
+    if op[0] == 'bar' and isinstance(got[1], float):
+        return '%.2f' % got[1] == '%.2f' % float(op[1])
     return got[1] == want[1]
 
 
@@ -99,6 +103,8 @@ class Executor(object):
         self.terminal_seen = False
         self.tb_levels = set()
         self.co = None              # the other competition of the meeting (isolation between instances)
+        self.opts = set()           # ('opt', name) ops seen so far, e.g. 'float-heights'
+        self.float_ok = False
 
     # ---- the other competition ---------------------------------------------------------------
     def co_step(self, op):
@@ -163,6 +169,8 @@ class Executor(object):
             self.trace.append(op); return self.resched(op[1], op[2])
         if k in ('co', 'co_new'):
             self.trace.append(op); return self.co_step(op)
+        if k == 'opt':
+            self.trace.append(op); self.opts.add(op[1]); self._ev('opt', op[1]); return None
         if not self.known(op):
             return None             # (only while minimising: the add was dropped)
         self.trace.append(op)
@@ -172,12 +180,20 @@ class Executor(object):
         before = snapshot(c) if need_snap else None
         exc = None
         try:
-            do(c, op)
+            do(c, op, self.opts)
             acc = True
         except self.RV as e:
             acc = False
         except Exception as e:      # any other exception type
             acc = False; exc = e
+        if k == 'bar' and 'float-heights' in self.opts and not self.float_ok:
+            # heights are annotated Decimal; a tree may insist on that.  Floats are only judged on a tree that
+            # takes them: the first legal float bar must be accepted, else the run ends unjudged.
+            if legal is True and not acc:
+                self.st.inc('stop:float-heights-not-taken-by-this-tree')
+                raise Stop('float heights not taken by this tree')
+            if acc:
+                self.float_ok = True
         after = snapshot(c) if (need_snap or self.shadows) else None
         self._ev(op, acc, c.state)
         kind = 'trial' if k in TRIALS else k
@@ -453,7 +469,7 @@ class Executor(object):
     def shadow_step(self, op, acc, after):
         for r in self.shadows:
             try:
-                do(r, op); racc = True
+                do(r, op, self.opts); racc = True
             except self.RV:
                 racc = False
             except Exception as e:
@@ -517,7 +533,7 @@ class Executor(object):
         r = self.HJ()
         for i, op in enumerate(ops):
             try:
-                do(r, op)
+                do(r, op, self.opts)
             except self.RV as e:
                 raise Violation('reordered-history-refused', {'kind': kind, 'seed': seed, 'index': i, 'op': op,
                                                                'error': str(e), 'original': self.accepted, 'reordered': ops})
@@ -710,6 +726,8 @@ class Director(object):
 
     # ---- run -----------------------------------------------------------------------------
     def run(self, ex):
+        if self.check == 'C02' and self.aux.random() < 0.12:
+            ex.step(('opt', 'float-heights')); self.co_n += 1
         try:
             if self.mode == 'free':
                 self.run_free(ex)
@@ -1109,7 +1127,7 @@ def enum_run_c03(athlib, tier_, seed, stats):
     hpre = a.choice([0, 1, 1, 2, 2, 3])
     d.n = n; d.bibs = BIBS[:n]; d.H = max(1, hpre); d.force_last = False
     d.skill = [a.uniform(0.5, 0.98) for _ in range(n)]
-    d.p_early = 0.0
+    d.p_early = a.choice([0.0, 0.1, 0.3])      # blank cells and cells cut short (a height skipped without a pass)
     scripts = d.make_scripts()
     stats.inc('enum:bases')
     stats.inc('mode:enumerated-continuations')
